@@ -35,6 +35,7 @@ THEOREMS = [
     "Mpc.C12_no_crash_small",
     "Mpc.C12_crash_wide_witness",
     "Mpc.C12_wide_witnesses",
+    "Mpc.C12_rewiden_witness",
     "Mpc.Fold.constantMpa_ok",
 ]
 
@@ -71,6 +72,13 @@ def facts(ctx):
     ctx.fact("Program.Circuit: constant operands are re-widened by sign (TInt) / zero extension",
              bool(re.search(r"if in\.Type\.Type == types\.TInt && len\(w\) > 0 \{\s*pad = w\[len\(w\)-1\]\s*\} else \{\s*"
                             r"pad = cc\.ZeroWire\(\)", body)), True)
+    ctx.fact("Program.Circuit: an mpa constant used at another width than its allocated wires takes its bits from "
+             "its own value, TInt sign-extended from min(mpa size, Type.Bits) (Model/Fold.lean rewiden)",
+             [bool(re.search(r"if mi, ok := in\.ConstValue\.\(\*mpa\.Int\); ok && in\.Const \{", body)),
+              bool(re.search(r"own := types\.Size\(mi\.TypeSize\(\)\)\s*if own > in\.Type\.Bits \{\s*own = in\.Type\.Bits\s*\}", body)),
+              bool(re.search(r"src := bit\s*if src >= own && in\.Type\.Type == types\.TInt \{\s*src = own - 1\s*\}\s*"
+                             r"if src < own && in\.Bit\(src\) \{\s*cw\[bit\] = cc\.OneWire\(\)\s*\} else \{\s*"
+                             r"cw\[bit\] = cc\.ZeroWire\(\)", body))], [True, True, True])
     body = vlib.strip_go_comments(vlib.go_func_body("compiler/ssa/value.go", r"isSet\(") or "")
     ctx.fact("isSet(*mpa.Int): bits at or above BitLen read as 0",
              bool(re.search(r"case \*mpa\.Int:\s*if bit >= types\.Size\(val\.BitLen\(\)\) \{\s*return false\s*\}\s*"
@@ -213,8 +221,9 @@ def run(ctx):
             more = fold_runs(ctx, [ctx.seed + 7000 + i for i in range(6)], 300, tag="-widen")
             ctx.fails.extend(more)
         # constants aliased by their value name: first registered type wins, later uses are re-widened
-        _, _, meta = ctx.run_hx("alias", 500 if quick else 6000)
+        aops, aout, meta = ctx.run_hx("alias", 500 if quick else 6000)
         ctx.absorb_meta(meta)
+        ctx.correspond("alias lines: two constants sharing a name, second re-widened (Model/Fold.lean rewiden)", aops, aout)
         ctx.fails.extend(meta.get("fails_all") or [])
         ctx.oblige("alias oracle ran", (meta.get("counters") or {}).get("alias_cases", 0) > 0, json.dumps(meta)[:500])
         causes = {}
@@ -230,8 +239,8 @@ def run(ctx):
     ctx.assumptions += [
         "the builders of compiler/circuits are taken at their arithmetic meaning (C07); Model/Mpa.lean's large path and "
         "Model/Fold.lean's circuitOp are tied to the real circuits by the mpa / rt correspondence lines only",
-        "operand forms are T(v), T(-v) and -T(v); constants reached through const declarations, untyped-typed mixes and "
-        "constant name collisions between differently typed constants are not generated",
+        "operand forms are T(v), T(-v) and -T(v); constants reached through const declarations and untyped-typed mixes "
+        "are not generated; name collisions between differently typed constants only by the alias oracle (two constants)",
         "theorems cover widths 1..64 (small path); widths above 64 are covered by the model correspondence and the oracle only",
     ]
     return ctx.finish(
